@@ -193,6 +193,28 @@ class Session:
                 return
             self._record(t, line)
 
+    def send_raw(self, data, extra=None):
+        """Write bytes without a line terminator (end of input in the middle of a line)."""
+        ev = {"ev": "in", "t": self.now(), "line": data}
+        if extra:
+            ev.update(extra)
+        self.events.append(ev)
+        try:
+            self.p.stdin.write(data.encode("utf-8"))
+            self.p.stdin.flush()
+        except (BrokenPipeError, OSError):
+            self.alive = False
+        return ev
+
+    def gui_gone(self):
+        """The GUI disappears: the engine's standard input ends AND nobody reads its output any more."""
+        self.events.append({"ev": "eofin", "t": self.now(), "stdout_closed": True})
+        for f in (self.p.stdin, self.p.stdout):
+            try:
+                f.close()
+            except OSError:
+                pass
+
     def close_stdin(self):
         self.events.append({"ev": "eofin", "t": self.now()})
         try:
@@ -260,6 +282,23 @@ def run_script(binary, steps, trace_path=None, drain_ms=20, prefix=None, cwd=Non
         elif do == "isready":
             s.send("isready", {"isready": True})
             s.wait_for("readyok", st.get("wait_ms", 3000))
+        elif do == "raw_isready_eof":
+            # `isready` without a line terminator, then end of input: the command is still a command
+            s.send_raw("isready", {"isready": True})
+            s.close_stdin()
+            s.wait_for("readyok", st.get("wait_ms", 1500))
+            s.finish("eof", st.get("wait_ms", 2500))
+            ended = True
+            break
+        elif do == "gone":
+            if st.get("pause_ms"):
+                s.drain(st["pause_ms"])
+            s.gui_gone()
+            s.finish("eof", st.get("wait_ms", 4000))
+            ended = True
+            break
+        elif do == "go_nowait":
+            s.send(st["line"], dict(st.get("extra") or {}, go=True, notime=True))
         elif do == "eof":
             s.close_stdin()
             s.finish("eof", st.get("wait_ms", 2500))
